@@ -38,7 +38,7 @@ def run(run):
     C.build_driver()
     h, d = C.Harness(), C.Driver()
     rng = run.rng
-    quick = run.tier == "quick"
+    quick = run.depth == "quick"
     stats = collections.Counter()
     mism = []
     try:
@@ -139,7 +139,7 @@ def run(run):
                 run.violation("C09:scan-stalls", "scanning one file of %d bytes (k=%d methods x 4 calls) did not finish in 120 s" % (len(family(k, 4)), k), dict(k=k))
         finally:
             shutil.rmtree(big, ignore_errors=True)
-        if not quick:
+        if run.tier == "thorough":
             fz = C.HARNESS_DIR
             env = dict(C.GOENV, GOFLAGS="-mod=mod")
             rc, out = C.sh(["go", "test", "-tags", "verif", "-run", "^$", "-fuzz", "FuzzBuild", "-fuzztime", "180s", "."], cwd=fz, env=env, timeout=1200)
